@@ -13,8 +13,9 @@ def Provider.LookupEq (p q : Provider) : Prop := (∀ t k, p.get t k = q.get t k
 /-- the same cache, another provider -/
 def Ctx.withProv (a : Ctx) (q : Provider) : Ctx := { a with provider := q }
 
-/-- all cached fields equal, providers lookup-equal -/
-def CtxSim (a b : Ctx) : Prop := b = a.withProv b.provider ∧ (∀ t k, a.provider.get t k = b.provider.get t k)
+/-- all cached fields equal, providers lookup-equal and equally `Valid()` -/
+def CtxSim (a b : Ctx) : Prop :=
+  b = a.withProv b.provider ∧ (∀ t k, a.provider.get t k = b.provider.get t k) ∧ a.provider.valid = b.provider.valid
 
 /-! ### the check functions read the provider only through lookups -/
 
@@ -99,16 +100,23 @@ theorem memberEventAllowed_withProv (a : Ctx) (q : Provider) (e : Event) (sig : 
   simp only [allowedSelf_mk_withProv a q h]
   rfl
 
-theorem allowed_withProv (a : Ctx) (q : Provider) (e : Event) (sig : Bool)
+theorem dispatch_withProv (a : Ctx) (q : Provider) (e : Event) (sig : Bool)
     (h : ∀ t k, a.provider.get t k = q.get t k) :
-    (a.withProv q).allowed e sig = a.allowed e sig := by
-  unfold Ctx.allowed
+    (a.withProv q).dispatch e sig = a.dispatch e sig := by
+  unfold Ctx.dispatch Ctx.dispatchPL
   rw [createEventAllowed_withProv, aliasEventAllowed_withProv, memberEventAllowed_withProv a q e sig h,
     powerLevelsEventAllowed_withProv a q e h, redactEventAllowed_withProv a q e h, defaultEventAllowed_withProv a q e h]
+  rfl
+
+theorem allowed_withProv (a : Ctx) (q : Provider) (e : Event) (sig : Bool)
+    (h : ∀ t k, a.provider.get t k = q.get t k) (hv : a.provider.valid = q.valid) :
+    (a.withProv q).allowed e sig = a.allowed e sig := by
+  unfold Ctx.allowed
+  rw [dispatch_withProv a q e sig h, show (a.withProv q).provider = q from rfl, hv]
 
 /-- `Ctx.allowed` gives the same answer on similar contexts -/
 theorem allowed_sim {a b : Ctx} (h : CtxSim a b) (e : Event) (sig : Bool) : b.allowed e sig = a.allowed e sig := by
-  rw [h.1]; exact allowed_withProv a _ e sig h.2
+  rw [h.1]; exact allowed_withProv a _ e sig h.2.1 h.2.2
 
 /-! ### `update` reads the provider only through lookups -/
 
@@ -196,7 +204,7 @@ theorem update_fresh_withProv (p q : Provider) (h : ∀ t k, p.get t k = q.get t
       simp only [Except.map]
       rw [refreshJR_withProv a3 q p q (h _ _)]
 
-theorem update_fresh_sim (p q : Provider) (h : ∀ t k, p.get t k = q.get t k) :
+theorem update_fresh_sim (p q : Provider) (h : ∀ t k, p.get t k = q.get t k) (hv : p.valid = q.valid) :
     (∃ v, ({} : Ctx).update p = .error v ∧ ({} : Ctx).update q = .error v) ∨
     (∃ a b, ({} : Ctx).update p = .ok a ∧ ({} : Ctx).update q = .ok b ∧ CtxSim a b) := by
   have hq := update_fresh_withProv p q h
@@ -204,15 +212,17 @@ theorem update_fresh_sim (p q : Provider) (h : ∀ t k, p.get t k = q.get t k) :
   | error v => rw [hp] at hq; exact Or.inl ⟨v, rfl, hq⟩
   | ok a =>
     rw [hp] at hq
-    refine Or.inr ⟨a, a.withProv q, rfl, hq, rfl, ?_⟩
-    rw [update_provider hp]; exact h
+    refine Or.inr ⟨a, a.withProv q, rfl, hq, rfl, ?_, ?_⟩
+    · rw [update_provider hp]; exact h
+    · rw [update_provider hp]; exact hv
 
 /-! ### main theorems -/
 
 theorem allowedFreshNoValid_lookup_congr (e : Event) (p q : Provider) (sig : Bool) (h : p.LookupEq q) :
     allowedFreshNoValid e p sig = allowedFreshNoValid e q sig := by
+  have hv : p.valid = q.valid := by unfold Provider.valid; rw [h.2]
   unfold allowedFreshNoValid
-  rcases update_fresh_sim p q h.1 with ⟨v, hp, hq⟩ | ⟨a, b, hp, hq, hs⟩
+  rcases update_fresh_sim p q h.1 hv with ⟨v, hp, hq⟩ | ⟨a, b, hp, hq, hs⟩
   · rw [hp, hq]
   · rw [hp, hq]; simp only; rw [allowed_sim hs]
 
